@@ -145,6 +145,29 @@ template <class A> void s1(vf::Ctx& c, size_t W, double p, bool isVar) {
   }
 }
 
+// ---- S1b: every operation sequence to a depth, no state de-duplication (robust against state the key does not see) -------
+template <class A> void s1b(vf::Ctx& c, size_t W, double p, bool isVar, int depth) {
+  std::vector<double> alpha = alphabet(p, true);
+  const int NOPS = (int)alpha.size() + 1;
+  uint64_t total = 1; for (int i = 0; i < depth; ++i) total *= NOPS;
+  std::vector<int> seq(depth);
+  for (uint64_t k = 0; k < total; ++k) {
+    uint64_t r = k; for (int i = 0; i < depth; ++i) { seq[i] = (int)(r % NOPS) - 1; r /= NOPS; }
+    A a(p, W); Model m{W};
+    for (int i = 0; i < depth; ++i) {
+      if (seq[i] < 0) { a.reset(); m.reset(); } else { a.update(alpha[seq[i]]); m.update(alpha[seq[i]]); }
+      c.transitions();
+      if (i + 1 < depth && k % NOPS) continue;   // prefixes are checked when they are enumerated as full sequences of a shorter tail: check the last step always, inner steps on a fraction
+      std::vector<int> h(seq.begin(), seq.begin() + i + 1);
+      std::string params = vf::JO().str("explorer", "S1b").str("object", isVar ? "OnlineVariance" : "OnlineAverage").u("window", W).num("precision", p).raw("history", hist_json(h, alpha)).done();
+      if (i) c.nontrivial();
+      if (!check<A>(c, a, m, p, isVar, params)) break;
+    }
+    c.traces();
+    if (c.c.violations > 30) return;
+  }
+}
+
 // ---- S2 -------------------------------------------------------------------------------------------------------
 struct Dev { int pos; int kind; };   // kind 0: reset before update pos, 1: outlier value at pos
 template <class A> void run_script(vf::Ctx& c, size_t W, double p, bool isVar, const std::vector<Dev>& devs, bool checkEvery, int script = 0) {
@@ -250,6 +273,7 @@ const std::vector<Case>& cases(bool th) {
       }
     }
   for (size_t cap = 1; cap <= 16; ++cap) v.push_back({3, 0, cap, 0, 0, 0});
+  for (int obj = 0; obj < 2; ++obj) for (size_t W = (obj ? 2 : 1); W <= 3; ++W) for (int p = 0; p < kNPrec; ++p) v.push_back({4, obj, W, p, th ? 7 : 5, 0});
   return v;
 }
 
@@ -262,12 +286,13 @@ void vf_run(uint64_t idx, const std::string& tier, vf::Ctx& c) {
   double p = kPrec[k.prec];
   if (k.kind == 1) { if (k.obj) s1<OnlineVariance>(c, k.W, p, true); else s1<OnlineAverage>(c, k.W, p, false); }
   else if (k.kind == 2) { if (k.obj) s2<OnlineVariance>(c, k.W, p, true, k.bound, k.first); else s2<OnlineAverage>(c, k.W, p, false, k.bound, k.first); }
-  else s3(c, k.W);
+  else if (k.kind == 3) s3(c, k.W);
+  else { if (k.obj) s1b<OnlineVariance>(c, k.W, p, true, k.bound); else s1b<OnlineAverage>(c, k.W, p, false, k.bound); }
 }
 
 std::string vf_case_params(uint64_t idx, const std::string& tier) {
   const Case& k = cases(tier == "thorough")[idx];
-  return vf::JO().u("case", idx).str("explorer", k.kind == 1 ? "S1" : k.kind == 2 ? "S2" : "S3")
+  return vf::JO().u("case", idx).str("explorer", k.kind == 1 ? "S1" : k.kind == 2 ? "S2" : k.kind == 3 ? "S3" : "S1b")
       .str("object", k.kind == 3 ? "RingOfEigenVector" : k.obj ? "OnlineVariance" : "OnlineAverage").u("window", k.W)
       .num("precision", kPrec[k.prec]).i("first_deviation", k.first).done();
 }
@@ -281,6 +306,7 @@ std::string vf_describe(const std::string& tier) {
   o.str("S2_scripts", "cyclic small values; alternating-sign values of magnitude 9e7*precision (bound 0 and a reset at every position)");
   o.str("S2", th ? "every window 1..64, 10*W updates, deviation bound 1 (reset or outlier at any position), bound 2 for W<=8, W=12, W=64"
                  : "every window 1..64 bound 0; bound 1 for W<=8,16,63,64 (all precisions) and all W at precisions 1e-3,1e-6; bound 2 for W<=8");
+  o.str("S1b", th ? "every update/reset sequence of length 7 for windows 1..3, no state de-duplication" : "every update/reset sequence of length 5 for windows 1..3, no state de-duplication");
   o.str("S3", "ring capacities 1..16, append(fresh tag)/clear(), BFS to fixpoint, states canonicalised by relative age");
   o.str("oracle", "availability <=> count>=W; mean of model window of truncated samples (long double); unbiased variance once full; bit-equality with a fresh object fed the model window");
   return o.done();
